@@ -133,7 +133,7 @@ func (e *Exec) intrinsic(st *State, fr *Frame, ci *callInfo) (Value, bool, bool)
 	case "(*sync.WaitGroup).Wait":
 		used()
 		e.blockingPoint(st, ci.pos, "WaitGroup.Wait")
-		e.joinSpawned(st, a[0], ci.pos)
+		e.joinSpawned(st, fr, a[0], ci.pos)
 		return Value{}, true, false
 	case "(*sync/atomic.Bool).Store":
 		used()
@@ -205,7 +205,7 @@ func (e *Exec) intrinsic(st *State, fr *Frame, ci *callInfo) (Value, bool, bool)
 		} else {
 			e.note(st, "context key of non-string kind: values of the derived context unknown")
 		}
-		e.storeGhost(st, "ctx$parent", SInt, c, parent)
+		e.storeGhost(st, "ctxParent", SInt, c, parent)
 		return Value{T: ci.sig.Results().At(0).Type(), L: []Term{IntLit(int64(e.eng.typeID(ctxValueType()))), c}}, true, false
 	case "context.WithCancelCause", "context.WithCancel", "context.WithTimeout":
 		used()
@@ -217,7 +217,7 @@ func (e *Exec) intrinsic(st *State, fr *Frame, ci *callInfo) (Value, bool, bool)
 		vv := e.cur(st, "ghost:ctx$valV", ArrS(SStr, SInt), false)
 		e.setHeap(st, "ghost:ctx$valT", Store(vt, c, Select(vt, parent)))
 		e.setHeap(st, "ghost:ctx$valV", Store(vv, c, Select(vv, parent)))
-		e.storeGhost(st, "ctx$parent", SInt, c, parent)
+		e.storeGhost(st, "ctxParent", SInt, c, parent)
 		done := e.alloc(st, "donech")
 		e.storeGhost(st, "ctxDone", SInt, c, done)
 		cf := e.alloc(st, "cancelfn")
@@ -229,6 +229,11 @@ func (e *Exec) intrinsic(st *State, fr *Frame, ci *callInfo) (Value, bool, bool)
 		tup := ci.sig.Results()
 		ctxv := Value{T: tup.At(0).Type(), L: []Term{IntLit(int64(e.eng.typeID(ctxValueType()))), c}}
 		return Value{Tup: []Value{ctxv, {T: tup.At(1).Type(), L: []Term{cf}}}}, true, false
+	case "context.Background", "context.TODO":
+		used()
+		bg := e.declare("ctx.background", SInt)
+		st.assert(And(Lt(Zero, bg), Le(bg, e.top.entryTop)))
+		return Value{T: ci.sig.Results().At(0).Type(), L: []Term{IntLit(int64(e.eng.typeID(ctxValueType()))), bg}}, true, false
 	case "iface context.Context.Done":
 		used()
 		ch := e.loadGhost(st, "ctxDone", SInt, a[0].L[1])
@@ -593,6 +598,27 @@ func (e *Exec) callLockEffects(st *State, c *FuncContract, env *SpecEnv, ci *cal
 // interfere: while this goroutine is blocked, others run. Everything guarded
 // by a lock may change (whole arrays: any object), monotone ghosts only grow.
 func (e *Exec) interfere(st *State) {
+	before := map[string]Term{}
+	for k, v := range st.heap {
+		before[k] = v
+	}
+	defer func() {
+		// objects allocated by the function under verification are its own until
+		// it hands them to someone else: other goroutines do not touch them
+		if e.top == nil {
+			return
+		}
+		for k, nv := range st.heap {
+			ov, ok := before[k]
+			if !ok || ov.S == nv.S || !strings.HasPrefix(string(nv.Sort), "(Array Int ") || ov.Sort != nv.Sort {
+				continue
+			}
+			if strings.HasPrefix(k, "ghost:") {
+				continue
+			}
+			st.assert(Term{fmt.Sprintf("(forall ((r Int)) (! (=> (> r %s) (= (select %s r) (select %s r))) :pattern ((select %s r))))", e.top.entryTop.S, nv.S, ov.S, nv.S), SBool})
+		}
+	}()
 	var keys []string
 	for k := range e.keySort {
 		keys = append(keys, k)
@@ -652,6 +678,49 @@ func (e *Exec) interfere(st *State) {
 	nt := e.freshConst("top.interf", SInt)
 	st.assert(Ge(nt, st.allocTop))
 	st.allocTop = nt
+	e.assumeGlobalInv(st)
+}
+
+// assumeGlobalInv: invariants over shared state that every function preserves
+// (each function in the cone proves them again at its return).
+func (e *Exec) assumeGlobalInv(st *State) {
+	if len(e.eng.specs.GlobalInv) == 0 {
+		return
+	}
+	env := &SpecEnv{e: e, st: st, vars: map[string]Value{}, what: "global invariant"}
+	if sp := e.eng.spkgs["server"]; sp != nil {
+		env.pkg = sp.Pkg
+	}
+	for _, cl := range e.eng.specs.GlobalInv {
+		t, err := env.evalBool(cl.Expr)
+		if err != nil {
+			e.specErr(err)
+			continue
+		}
+		st.assert(t)
+	}
+}
+
+func (e *Exec) checkGlobalInv(st *State, pos token.Pos) {
+	if len(e.eng.specs.GlobalInv) == 0 || e.disc != nil {
+		return
+	}
+	env := &SpecEnv{e: e, st: st, vars: map[string]Value{}, what: "global invariant"}
+	if sp := e.eng.spkgs["server"]; sp != nil {
+		env.pkg = sp.Pkg
+	}
+	for i, cl := range e.eng.specs.GlobalInv {
+		t, err := env.evalBool(cl.Expr)
+		if err != nil {
+			e.specErr(err)
+			continue
+		}
+		name := cl.Name
+		if name == "" {
+			name = fmt.Sprintf("%d", i+1)
+		}
+		e.oblige(st, "global-inv", name, t, pos, cl.Tags, cl.Text)
+	}
 }
 
 // interferenceKey: heap arrays that interfere() may replace.
@@ -707,26 +776,118 @@ func (e *Exec) goSpawn(st *State, fr *Frame, ci *callInfo, pos token.Pos) {
 			st.published[b.P.Base.S] = true
 		}
 	}
-	if c := e.eng.specs.Funcs[ci.key]; c != nil && c.Attrs["forkjoin"] != "" {
-		// the child's postcondition is assumed at the join (see joinSpawned)
+	if c := e.eng.specs.Funcs[ci.key]; c != nil && c.Attrs["forkjoin"] != "" && ci.fn != nil {
+		// structured fork/join: remember which per-iteration value this child
+		// was started for; its postcondition is assumed at the join
 		e.usedContracts[c.Key] = true
-		st.spawned = append(append([]spawnRec(nil), st.spawned...), spawnRec{ci: ci, contract: c, loopDepth: len(fr.loops)})
+		fv := c.Attrs["forkjoin"]
+		for i, v := range ci.fn.FreeVars {
+			if v.Name() == fv && i < len(ci.bind) && ci.bind[i].P != nil {
+				x := e.loadPlace(st, ci.bind[i].P, nil)
+				e.storeGhost(st, "spawned:"+c.Key, SBool, x.L[0], True)
+			}
+		}
 		return
 	}
 	e.abstractions["go "+name+": spawned body verified separately (if under contract); parent continues"] = true
 }
 
-type spawnRec struct {
-	ci        *callInfo
-	contract  *FuncContract
-	loopDepth int
-}
-
-func (e *Exec) joinSpawned(st *State, wg Value, pos token.Pos) {
+// joinSpawned implements wg.Wait() for the structured fork/join pattern: for
+// every `go closure` of the current function whose closure has a contract with
+// `attr forkjoin = v`, the conjunction of the children's postconditions is
+// assumed over all values x for which a child was spawned; time advances to the
+// finish time of the slowest child.
+func (e *Exec) joinSpawned(st *State, fr *Frame, wg Value, pos token.Pos) {
 	e.emit(st, Event{Name: "WgWait", Args: []Term{wg.L[0]}, Pos: pos})
-	// children may have run for any time and written what their contracts say
+	start := st.now
 	nn := e.freshConst("now.join", SInt)
 	st.assert(Ge(nn, st.now))
+	type child struct {
+		c  *FuncContract
+		fn *ssa.Function
+		mc *ssa.MakeClosure
+	}
+	var kids []child
+	for _, b := range fr.fn.Blocks {
+		for _, in := range b.Instrs {
+			g, ok := in.(*ssa.Go)
+			if !ok {
+				continue
+			}
+			mc, ok := g.Call.Value.(*ssa.MakeClosure)
+			if !ok {
+				continue
+			}
+			fn := mc.Fn.(*ssa.Function)
+			if c := e.eng.specs.Funcs[fnKey(fn)]; c != nil && c.Attrs["forkjoin"] != "" {
+				kids = append(kids, child{c, fn, mc})
+			}
+		}
+	}
+	for _, k := range kids {
+		key := "ghost:spawned:" + k.c.Key
+		if _, ok := e.keySort[key]; !ok {
+			continue
+		}
+		spawned := e.cur(st, key, SBool, false)
+		x := e.freshName("q.child")
+		xT := Term{x, SInt}
+		finish := "sf.finish." + smtName(k.c.Key)
+		e.declareFun(finish, []Sort{SInt}, SInt)
+		fx := App(SInt, finish, xT)
+		// what the children may have written: whole arrays of their assigns
+		env := &SpecEnv{e: e, st: st, vars: map[string]Value{}, pkg: fr.fn.Pkg.Pkg, trace: nil, what: "join " + k.c.Key}
+		fvName := k.c.Attrs["forkjoin"]
+		for i, fv := range k.fn.FreeVars {
+			pt, ok := fv.Type().(*types.Pointer)
+			if !ok {
+				continue
+			}
+			if fv.Name() == fvName {
+				env.vars[fv.Name()] = Value{T: pt.Elem(), L: []Term{xT}}
+				continue
+			}
+			// loop-invariant captured variables: read their cells now
+			if bv, ok := fr.env[k.mc.Bindings[i]]; ok && bv.P != nil {
+				env.vars[fv.Name()] = e.loadPlace(st, bv.P, nil)
+				env.vars["&"+fv.Name()] = bv
+				env.vars[fv.Name()+"$ptr"] = bv
+			}
+		}
+		if !k.c.AssignsAll {
+			for _, t := range e.assignTargets(env, k.c, k.c.Assigns) {
+				old := e.cur(st, t.key, t.sort, t.two)
+				if !t.whole && !strings.Contains(t.obj.S, x) {
+					// the same object for every child
+					e.havocAt(st, t.key, t.sort, t.two, t.obj)
+				} else {
+					e.havocKey(st, t.key, t.sort, t.two)
+				}
+				e.monotoneLinkFrom(st, t.key, old, st.heap[t.key])
+			}
+		} else {
+			e.havocAll(st)
+		}
+		e.interfere(st)
+		env.old = nil
+		env.oldNow = start
+		env.nowT = &fx
+		var posts []Term
+		for _, en := range k.c.Ensures {
+			t, err := env.evalBool(en.Expr)
+			if err != nil {
+				e.specErr(err)
+				continue
+			}
+			posts = append(posts, t)
+		}
+		guard := Select(spawned, xT)
+		body := Implies(guard, And(append(posts, Le(start, fx), Le(fx, nn))...))
+		st.assert(Term{fmt.Sprintf("(forall ((%s Int)) (! %s :pattern ((select %s %s))))", x, body.S, spawned.S, x), SBool})
+		// the join ends exactly when the slowest child ends
+		st.assert(Term{fmt.Sprintf("(or (and (= %s %s) (forall ((%s Int)) (not (select %s %s)))) (exists ((%s Int)) (and (select %s %s) (= (%s %s) %s))))",
+			nn.S, start.S, x, spawned.S, x, x, spawned.S, x, finish, x, nn.S), SBool})
+	}
 	st.now = nn
 }
 
